@@ -694,6 +694,9 @@ func LeafOut(scalar string, enum *TypeDef, v Val) (out interface{}, class string
 			return t.UTC().Format(time.RFC3339Nano), "ok"
 		case "string":
 			if t, err := time.Parse(time.RFC3339Nano, v.S); err == nil {
+				if y := t.UTC().Year(); y < 0 || y > 9999 {
+					return nil, "bad" // written in UTC it has a year RFC 3339 can not express
+				}
 				return t.UTC().Format(time.RFC3339Nano), "ok"
 			}
 			return nil, "bad"
